@@ -160,7 +160,7 @@ func cmdRoleRun(args []string) int {
 		return 2
 	}
 	defer eng.Close()
-	const leaderRev = 777
+	var leaderRev uint64 = 777
 	// the "leader": an HTTP endpoint that answers /status like server.revisionHandler does
 	mode := "reachable"
 	var modeMu sync.Mutex
@@ -181,6 +181,7 @@ func cmdRoleRun(args []string) int {
 		}
 	}
 	lenv.B.SetCurrentRevision(leaderRev)
+	leaderRev = lenv.B.GetCurrentRevision() // (the committed revision only rises: what the leader's /status answers is this)
 	fenv := kb.NewEnv(kb.Options{Engine: eng, KeyNames: defaultKeyNames, Gated: false, Record: false, Base: 100, Etcd: true, Prefix: "/roleleader", Identity: "other-node"})
 	fstatus := server.NewServer(fenv.B, kb.Metrics(), server.Config{}).GetPeerHttpHandlers()["/status"]
 	srv := httptest.NewServer(http.HandlerFunc(func(w http.ResponseWriter, req *http.Request) {
